@@ -2,7 +2,7 @@
   Driver/World.lean — JSON worlds ⇄ model values, and running the command models.
 -/
 import Lean.Data.Json
-import TrashVerif.Model.Put
+import TrashVerif.Model.Cmds
 open Lean TrashVerif
 
 namespace World
@@ -162,5 +162,62 @@ def runPutWorld (j : Json) : Except String Json := do
     ("exit", r.exit),
     ("crash", match r.crash with | some .eof => "EOFError" | some .cleanup => "OSError" | none => Json.null),
     ("outcomes", Json.arr (r.outcomes.map fun (a, o) => Json.mkObj [("arg", Json.str (Bytes.toHex a)), ("outcome", outcomeJson o)]).toArray)])
+
+def readCfgOf (j : Json) : Except String ReadCfg := do
+  pure { cwd := cpathOf (← hexField j "cwd"), env := ← envOf j, uid := (j.getObjValAs? Nat "uid").toOption.getD 0,
+         mountPoints := ← hexList j "mounts" }
+
+def faultsOf (j : Json) : Except String (List Fault) :=
+  match j.getObjVal? "faults" with
+  | .ok (Json.arr a) => a.toList.mapM faultOf
+  | _ => pure []
+
+def crashStr : Crash → String
+  | .notADirectory => "NotADirectoryError" | .ioError => "IOError" | .overflow => "OverflowError" | .eof => "EOFError"
+  | .typeError => "ValueError" | .indexError => "IndexError" | .osError => "OSError"
+
+def cmdFinish (r : CmdResult) (s : Prog.RunState) (j : Json) : Json :=
+  finish s (((j.getObjValAs? Bool "states").toOption).getD false)
+    [("exit", r.exit), ("crash", match r.crash with | some c => Json.str (crashStr c) | none => Json.null)]
+
+def replyOf (j : Json) : Except String (Option Bytes) := do
+  match ← hexList j "stdin" with
+  | [] => pure none
+  | l :: _ => pure (some l)
+
+def dateOfArr (j : Json) (k : String) : Except String Date := do
+  let a ← j.getObjValAs? (Array Nat) k
+  if a.size ≠ 6 then throw "date needs 6 numbers"
+  pure { y := a[0]!, m := a[1]!, d := a[2]!, H := a[3]!, M := a[4]!, S := a[5]! }
+
+def runOther (cmd : String) (j : Json) : Except String Json := do
+  let fs ← fsOf j
+  let c ← readCfgOf j
+  let o := (j.getObjVal? "opts").toOption.getD (Json.mkObj [])
+  let φ := oracleOf (← faultsOf j)
+  match cmd with
+  | "list" =>
+    let (r, s) := Prog.run φ (runList c (← hexList o "userDirs")) { fs := fs }
+    pure (cmdFinish r s j)
+  | "restore" =>
+    let sort := match (o.getObjValAs? String "sort").toOption with
+      | some "path" => SortMode.path | some "none" => .none | _ => .date
+    let ro : RestoreOpts := { path := (← optHexField o "path").getD [], sort := sort,
+                              trashDir := ← optHexField o "trashDir",
+                              overwrite := ((o.getObjValAs? Bool "overwrite").toOption).getD false }
+    let (r, s) := Prog.run φ (runRestore c ro (← replyOf j)) { fs := fs }
+    pure (cmdFinish r s j)
+  | "empty" =>
+    let eo : EmptyOpts := { userDirs := ← hexList o "userDirs", days := (o.getObjValAs? Nat "days").toOption,
+                            dryRun := ((o.getObjValAs? Bool "dryRun").toOption).getD false,
+                            verbose := ((o.getObjValAs? Nat "verbose").toOption).getD 0,
+                            interactive := ((o.getObjValAs? Bool "interactive").toOption).getD false,
+                            now := ← dateOfArr o "now", nowUs := ((o.getObjValAs? Nat "nowUs").toOption).getD 0 }
+    let (r, s) := Prog.run φ (runEmpty c eo (← replyOf j)) { fs := fs }
+    pure (cmdFinish r s j)
+  | "rm" =>
+    let (r, s) := Prog.run φ (runRm c (← hexList j "args")) { fs := fs }
+    pure (cmdFinish r s j)
+  | c => throw s!"unknown cmd {c}"
 
 end World
